@@ -265,7 +265,7 @@ def c01(facts, tier):
                 rep.violation("R-SCHEME(avail)", key, "%s never returns normally under %s: the scheme dispatch has no arm for "
                               "it (or every path refuses)" % (p, sc), facts.loc(p))
     rep.floor("R-SCHEME(avail)", "(entry, scheme) rows", k, 75)
-    tree = ents + [p for p in facts.items if p.startswith("util::rlwe::encrypt_zero::")]
+    tree = ents + [p for p in facts.items if p.startswith("util::rlwe::encrypt_zero::") and facts.items[p].get("vis") == "pub"]
     repstate(facts, rep, tree, 130)
     r_rngprov_seed(facts, rep)
     # metadata of a fresh encryption: the level the zero encryption is created at is the level the message is added at
